@@ -537,6 +537,17 @@ inline run_t run(toks_t& t)
         wrapped.constrain(std::move(copy));
     }
 
+    // the function object handed to the solver has been evaluated BEFORE the call (as a caller computing f(x0) would): the counts
+    // a solver reports are those of its own call; the wrapper's log is emptied again afterwards (seeded change C02-e2: constrained
+    // solvers no longer clearing the statistics)
+    {
+        vector_t g(n);
+        wrapped.vgrad(x0, g);
+        wrapped.vgrad(x0);
+        wrapped.vgrad(x0, g);
+        *r.log = evlog_t{};
+    }
+
     const auto logger       = make_null_logger();
     tls().records           = &r.records;
     tls().log               = r.log.get();
